@@ -285,7 +285,8 @@ fn run_script(out: &mut CaseOut, script: &Script, fault: Option<Fault>, ctx: &se
         let mut applied = vec![];
         let mut not_applied = vec![];
         for (k, v) in ops {
-            if model.last_touch.get(k) != Some(pos) || v.is_none() {
+            // only values long enough to carry their unique tag identify "this batch was applied"
+            if model.last_touch.get(k) != Some(pos) || v.as_ref().map_or(true, |v| v.len() < 8) {
                 continue;
             }
             if after.get(k).map(|g| g == v).unwrap_or(false) {
